@@ -11,15 +11,18 @@ import (
 
 	"google.golang.org/protobuf/proto"
 	"google.golang.org/protobuf/reflect/protoreflect"
+	"google.golang.org/protobuf/reflect/protoregistry"
 	"google.golang.org/protobuf/types/dynamicpb"
 	"google.golang.org/protobuf/zverifsim/gen"
 	"google.golang.org/protobuf/zverifsim/scn"
 	"google.golang.org/protobuf/zverifsim/sim"
 )
 
-// C05 — deterministic marshaling is a function of message content (first
-// sentence of the property; the converse, identical bytes => Equal, is a pure
-// input property and not decided here).
+// C05 — deterministic marshaling is a function of message content; and, over
+// the same construction histories, the converse: variants whose deterministic
+// encodings are identical must be proto.Equal in both argument orders (what a
+// history leaves behind besides content, such as an empty list entry for an
+// unpopulated repeated extension, must not make Equal say no).
 //
 // One seeded content is realised through many construction histories (field
 // and map insertion orders, delete-and-reinsert detours, growth and shrink of
@@ -184,6 +187,80 @@ func copyShuffled(r *sim.Rng, dst, src protoreflect.Message, detours bool) {
 		}
 	}
 	dst.SetUnknown(append([]byte(nil), src.GetUnknown()...))
+	if detours {
+		// empty composites left behind by history for fields the content does not have: they are
+		// unpopulated (Has false, nothing encoded), so the content is the same
+		fds := dst.Descriptor().Fields()
+		for i := 0; i < fds.Len(); i++ {
+			fd := fds.Get(i)
+			if src.Has(fd) || !(fd.IsList() || fd.IsMap()) || !r.Chance(1, 3) {
+				continue
+			}
+			emptyDetour(r, dst, fd, o)
+		}
+		if dst.Descriptor().ExtensionRanges().Len() > 0 {
+			var xs []protoreflect.FieldDescriptor
+			protoregistry.GlobalTypes.RangeExtensionsByMessage(dst.Descriptor().FullName(), func(xt protoreflect.ExtensionType) bool {
+				if fd := xt.TypeDescriptor(); fd.IsList() && !src.Has(fd) {
+					xs = append(xs, fd)
+				}
+				return true
+			})
+			sort.Slice(xs, func(i, j int) bool { return xs[i].Number() < xs[j].Number() })
+			for _, fd := range xs {
+				if r.Chance(1, 3) {
+					emptyDetour(r, dst, fd, o)
+				}
+			}
+		}
+	}
+}
+
+// emptyDetour leaves an empty list or map in dst for a field that stays unpopulated.
+func emptyDetour(r *sim.Rng, dst protoreflect.Message, fd protoreflect.FieldDescriptor, o gen.Opts) {
+	switch {
+	case fd.IsMap():
+		tmp := dst.New()
+		gen.SetField(r, tmp, fd, o, 9)
+		dm := dst.Mutable(fd).Map()
+		tmp.Get(fd).Map().Range(func(k protoreflect.MapKey, v protoreflect.Value) bool {
+			if fd.MapValue().Message() == nil {
+				dm.Set(k, v)
+			}
+			return true
+		})
+		var ks []protoreflect.MapKey
+		dm.Range(func(k protoreflect.MapKey, _ protoreflect.Value) bool { ks = append(ks, k); return true })
+		for _, k := range ks {
+			dm.Clear(k)
+		}
+	default:
+		switch r.Intn(3) {
+		case 0:
+			dst.Set(fd, dst.NewField(fd)) // an empty list assigned
+		case 1:
+			dst.Mutable(fd) // obtained for writing, nothing appended
+		default:
+			l := dst.Mutable(fd).List()
+			if fd.Message() != nil {
+				l.Append(l.NewElement())
+			} else {
+				tmp := dst.New()
+				gen.SetField(r, tmp, fd, o, 9)
+				if tl := tmp.Get(fd).List(); tl.Len() > 0 {
+					l.Append(tl.Get(0))
+				}
+			}
+			l.Truncate(0)
+		}
+	}
+}
+
+func sameDetBytes(a, b proto.Message) bool {
+	mo := proto.MarshalOptions{AllowPartial: true, Deterministic: true}
+	x, err1 := mo.Marshal(a)
+	y, err2 := mo.Marshal(b)
+	return err1 == nil && err2 == nil && bytes.Equal(x, y)
 }
 
 type c05Variant struct {
@@ -226,7 +303,9 @@ func c05Variants(s *scn.Scn, x *sim.Exec) ([]c05Variant, []byte) {
 		gen.Denormalise(r.Fork(), t, 150, &st)
 		if st.Total() > 0 {
 			dw := t.Encode()
-			if e, err := decodeEager(typ, dw); err == nil && proto.Equal(e, m0) {
+			// (a denormalisation must not change content; judged by the encoding, not by Equal,
+			// which is itself under test below)
+			if e, err := decodeEager(typ, dw); err == nil && sameDetBytes(e, m0) {
 				vs = append(vs, c05Variant{"decoded eagerly from a non-minimal encoding", gclass, e})
 				if lazyCapable(typ) {
 					if l, err := decodeLazy(typ, dw); err == nil {
@@ -278,6 +357,7 @@ func (c05) Run(s *scn.Scn, x *sim.Exec) {
 	mo := proto.MarshalOptions{AllowPartial: true, Deterministic: true}
 	first := map[string][]byte{}
 	firstName := map[string]string{}
+	firstMsg := map[string]proto.Message{}
 	mapSeeds := []uint64{uint64(s.P["vseed"])*3 + 1, 0x9e3779b97f4a7c15, uint64(s.P["vseed"])>>7 | 1}
 	if os.Getenv("PBSIM_C05_CHILD") == "1" {
 		// a re-executed process uses map seeds of its own
@@ -297,6 +377,7 @@ func (c05) Run(s *scn.Scn, x *sim.Exec) {
 			if want, ok := first[v.class]; !ok {
 				first[v.class] = b
 				firstName[v.class] = v.name
+				firstMsg[v.class] = v.m
 			} else if !bytes.Equal(want, b) {
 				// equal content? (a harness construction error would show here)
 				cls := "different-bytes-same-content"
@@ -307,6 +388,24 @@ func (c05) Run(s *scn.Scn, x *sim.Exec) {
 				x.Fail(cls, "Deterministic Marshal of %s: variant %q (marshal #%d, map seed %d) differs from variant %q: %d vs %d bytes, first difference at offset %d", v.class, v.name, k, ms, firstName[v.class], len(b), len(want), firstDiff(b, want))
 				return
 			}
+		}
+	}
+	// The converse clause, over the same histories: all variants of a class have just been seen to
+	// have identical deterministic encodings, so any two of them must be Equal, in both argument orders.
+	for _, v := range vs {
+		ref := firstMsg[v.class]
+		if ref == nil || ref == v.m {
+			continue
+		}
+		var e1, e2 bool
+		if p := sim.Protect(func() { e1, e2 = proto.Equal(v.m, ref), proto.Equal(ref, v.m) }); p != "" {
+			x.Fail("panic:Equal", "proto.Equal panicked on variant %q: %s", v.name, p)
+			return
+		}
+		x.Out.Evals++
+		if !e1 || !e2 {
+			x.Fail("identical-bytes-not-equal", "%s: variant %q and variant %q have byte-identical deterministic encodings (%d bytes) but proto.Equal(variant, first)=%v, proto.Equal(first, variant)=%v", v.class, v.name, firstName[v.class], len(first[v.class]), e1, e2)
+			return
 		}
 	}
 	x.Probe("variants-compared", int64(len(vs)))
